@@ -40,6 +40,9 @@ RULE = (
     " One case in seven: the discovery report names another context engine than the authorita"
     "tive engine. Deterministic triples of (password, engine id) pairs with equal concatenati"
     "ons (eight separators) run in one process."
+    " One case in three: the agent pads the scoped PDU with 1..15 octets before encrypting (R"
+    "FC 3414 8.1.1.2). Operations set-refused / get-generr: an encrypted error response surfa"
+    "ces as the documented ErrorResponse."
 )
 ASSUMPTIONS = [
     "the only thing assumed about a privacy plug-in is decrypt(encrypt(x)) == x; all harness plug-ins satisfy it exactly",
